@@ -225,3 +225,35 @@ func MuRUnlock(m interface{}) {
 		x.RUnlock()
 	}
 }
+
+// ---- pools ------------------------------------------------------------------
+// sync.Pool drops its contents whenever the garbage collector runs; under the
+// simulator a pool is a plain LIFO free list, so what a pool hands out is a
+// function of the history alone.
+
+var pools = map[*sync.Pool][]interface{}{}
+
+// PoolGet replaces p.Get().
+func PoolGet(p *sync.Pool) interface{} {
+	if W == nil {
+		return p.Get()
+	}
+	if l := pools[p]; len(l) > 0 {
+		v := l[len(l)-1]
+		pools[p] = l[:len(l)-1]
+		return v
+	}
+	if p.New != nil {
+		return p.New()
+	}
+	return nil
+}
+
+// PoolPut replaces p.Put(v).
+func PoolPut(p *sync.Pool, v interface{}) {
+	if W == nil {
+		p.Put(v)
+		return
+	}
+	pools[p] = append(pools[p], v)
+}
